@@ -91,3 +91,42 @@ fn prefix_remaining_len_body() {
 }
 #[cfg(kani)] #[kani::proof] #[kani::unwind(6)] fn prefix_remaining_len() { prefix_remaining_len_body() }
 #[cfg(all(not(kani), psc_verif_replay))] #[test] fn replay_prefix_remaining_len() { vk::load_replay(); prefix_remaining_len_body() }
+
+// ---- C03/C04: the narrow compact decoders against an independent recogniser, every input of up to 5 bytes -----------------
+/// canonical compact recogniser over u64 arithmetic: Some((value, bytes used)) iff `b` starts with the canonical form of a
+/// value below 2^32 (the 5-byte mode is the only big-integer mode whose value fits)
+fn spec_compact_narrow(b: &[u8]) -> Option<(u64, usize)> {
+    if b.len() == 0 { return None; }
+    let p = b[0];
+    match p & 3 {
+        0 => Some(((p >> 2) as u64, 1)),
+        1 => { if b.len() < 2 { return None; } let v = ((p as u64) | ((b[1] as u64) << 8)) >> 2; if v >= 64 { Some((v, 2)) } else { None } }
+        2 => { if b.len() < 4 { return None; } let v = ((p as u64) | ((b[1] as u64) << 8) | ((b[2] as u64) << 16) | ((b[3] as u64) << 24)) >> 2; if v >= (1 << 14) { Some((v, 4)) } else { None } }
+        _ => { if p != 3 || b.len() < 5 { return None; } let v = (b[1] as u64) | ((b[2] as u64) << 8) | ((b[3] as u64) << 16) | ((b[4] as u64) << 24); if v >= (1 << 30) { Some((v, 5)) } else { None } }
+    }
+}
+macro_rules! compact_decode_harness {
+    ($body:ident, $proof:ident, $replay:ident, $t:ty, $max:expr) => {
+        fn $body() {
+            let bytes: [u8; 5] = [vk::any_u8(), vk::any_u8(), vk::any_u8(), vk::any_u8(), vk::any_u8()];
+            let len = vk::any_usize();
+            vk::assume(len <= 5);
+            let mut inp: &[u8] = &bytes[..len];
+            let r = <Compact<$t>>::decode(&mut inp);
+            // a prefix byte announcing a wider big-integer form can only be canonical for values >= 2^32: out of range for
+            // every type checked here, and it needs more than 5 bytes anyway
+            let expect = match spec_compact_narrow(&bytes[..len]) { Some((v, n)) if v <= ($max as u64) => Some((v, n)), _ => None };
+            match (r, expect) {
+                (Ok(Compact(x)), Some((v, n))) => assert!(x as u64 == v && inp.len() == len - n, "compact decoder returned a different value or consumed a different number of bytes"),
+                (Err(_), None) => {}
+                (Ok(_), None) => assert!(false, "compact decoder accepted a non-canonical, over-wide or truncated encoding"),
+                (Err(_), Some(_)) => assert!(false, "compact decoder rejected a canonical in-range encoding"),
+            }
+        }
+        #[cfg(kani)] #[kani::proof] #[kani::unwind(8)] fn $proof() { $body() }
+        #[cfg(all(not(kani), psc_verif_replay))] #[test] fn $replay() { vk::load_replay(); $body() }
+    };
+}
+compact_decode_harness!(compact_decode_u8_body, compact_decode_u8, replay_compact_decode_u8, u8, u8::MAX);
+compact_decode_harness!(compact_decode_u16_body, compact_decode_u16, replay_compact_decode_u16, u16, u16::MAX);
+compact_decode_harness!(compact_decode_u32_body, compact_decode_u32, replay_compact_decode_u32, u32, u32::MAX);
